@@ -182,6 +182,35 @@ def run(rep, ctx):
                 cv(kids(c)[1]) == 0 and strip(x).get("callee") == "mp::Error::exit_code" and cv(y) is not None and in_class(cv(y))
             p2.check(okm, "Run|code|%s" % tn, short_loc(rc[0].get("l")), "reports exit_code() if >= 0, else %s" % cv(y),
                      "the reported solve result is `%s`" % render(a0)[:80])
+        elif cv(a0) is None:
+            # the code is computed by statements of the handler: they are evaluated for exit codes of either sign
+            from ..cfg import MiniInt as _MI
+            okm, seen_ = True, []
+            for E_ in (-1, 0, 150, 500):
+                rec_, box = [], {}
+
+                def atom(t_, n_, env_, E_=E_):
+                    if n_["k"] == "CXXMemberCallExpr":
+                        cn_ = n_.get("callee") or ""
+                        if cn_ == "mp::Error::exit_code":
+                            return E_
+                        if cn_.endswith("::ReportError"):
+                            rec_.append(box["mi"].expr(call_args(n_)[0], env_, 0))
+                            return 0
+                    return None
+                mi = _MI(F, atom)
+                box["mi"] = mi
+                body_ = [x for x in kids(h) if x is not None and x["k"] == "CompoundStmt"]
+                try:
+                    mi.cur.append(run_)
+                    mi.run(kids(body_[-1]) if body_ else [], {}, 0)
+                except AnalysisBroken:
+                    okm = False
+                    break
+                seen_.append((E_, rec_))
+                okm = okm and len(rec_) == 1 and ((rec_[0] == E_) if E_ >= 0 else in_class(rec_[0]))
+            p2.check(okm, "Run|code|%s" % tn, short_loc(rc[0].get("l")), "reports exit_code() if >= 0, else a failure code",
+                     "the reported solve result per exit code: %s" % seen_)
         else:
             p2.check(cv(a0) is not None and in_class(cv(a0)), "Run|code|%s" % tn, short_loc(rc[0].get("l")), "reports solve result %s" % cv(a0),
                      "reports solve result `%s`" % render(a0)[:60])
